@@ -123,10 +123,6 @@ func (err *stringConversionError) Error() string {
 	return "error converting value to string: " + err.err.Error()
 }
 
-func (err *stringConversionError) Unwrap() error {
-	return err.err
-}
-
 type unexpectedOperationError struct {
 	op reflect.Type
 }
